@@ -22,6 +22,8 @@ type c05Case struct {
 	Sp     model.Spelling `json:"spelling"`
 	PreOps []string       `json:"preOps,omitempty"` // From-Root entries: earlier operations on the same node tree
 	Late   int            `json:"late,omitempty"`   // iterator entries: the last Late nodes are added after the iterator was created
+	Twice  bool           `json:"twice,omitempty"`  // iterator entries: the same iterator value is ranged over a second time
+	CbErr  int            `json:"cbErr,omitempty"`  // callback entries: which error value the callback returns (ops.CallbackErr)
 }
 
 func init() { registerReplay("c05", c05Check) }
@@ -31,6 +33,7 @@ func c05Check(c c05Case) string {
 	text, facts := model.Render(merged, branchOrDefault(c.Branch))
 	cs := ops.NewCase("walk", "md")
 	cs.Opts.Branch = c.Branch
+	cs.Faults.CbErrKind = c.CbErr
 	switch c.Entry {
 	case "md", "mdalias":
 		cs.Entry = c.Entry
@@ -57,6 +60,7 @@ func c05Check(c c05Case) string {
 			cs.Prog = cs.Prog[:len(cs.Prog)-c.Late]
 		}
 		cs.Faults.BreakAt = c.StopAt
+		cs.RangeTwice = c.Twice
 	}
 	res := ops.DefaultEnv.Run(&cs)
 	head := fmt.Sprintf("forest %s entry=%s branch=%+v stopAt=%d\n", c.Forest, c.Entry, c.Branch, c.StopAt)
@@ -86,6 +90,9 @@ func c05Check(c c05Case) string {
 		} else if v.Row != v.Branch+" "+v.Name {
 			return fmt.Sprintf("%svisit %d: Row %q != Branch+\" \"+Name (%q, %q)", head, i, v.Row, v.Branch, v.Name)
 		}
+	}
+	if c.Twice && strings.HasPrefix(c.Entry, "iter") && res.SecondVisits != len(facts) {
+		return fmt.Sprintf("%sranging over the same iterator value a second time gave %d visits, the tree has %d nodes", head, res.SecondVisits, len(facts))
 	}
 	stopping := c.StopAt >= 0 && c.StopAt < len(facts)
 	isIter := strings.HasPrefix(c.Entry, "iter")
@@ -145,7 +152,7 @@ func c05Record(col *collector, c c05Case) {
 	if d := model.Merge(c.Forest).Depth(); d >= 18 {
 		cl = append(cl, "depth>=18")
 	}
-	col.eval(nontrivial, hash64(c.Forest.String(), c.Entry, fmt.Sprint(c.Branch, c.StopAt, c.PreOps, c.Late), model.Spell(c.Forest, c.Sp)), cl...)
+	col.eval(nontrivial, hash64(c.Forest.String(), c.Entry, fmt.Sprint(c.Branch, c.StopAt, c.PreOps, c.Late, c.Twice, c.CbErr), model.Spell(c.Forest, c.Sp)), cl...)
 	col.sample(func() any { return map[string]any{"forest": c.Forest.String(), "entry": c.Entry, "stopAt": c.StopAt, "branch": c.Branch} })
 }
 
@@ -171,7 +178,7 @@ func TestC05Exhaustive(t *testing.T) {
 				if sp.Heading && !f.HeadingOK() {
 					sp = model.Plain2
 				}
-				c := c05Case{Forest: f, Entry: e, Branch: branchPanel[rot%len(branchPanel)], StopAt: k, Sp: sp}
+				c := c05Case{Forest: f, Entry: e, Branch: branchPanel[rot%len(branchPanel)], StopAt: k, Sp: sp, Twice: rot%2 == 0, CbErr: (rot / 2) % 8}
 				c05Record(col, c)
 				if msg := c05Check(c); msg != "" {
 					violation(t, "C05", "c05", c, msg)
@@ -209,6 +216,10 @@ func c05Gen() *rapid.Generator[c05Case] {
 		}
 		if !strings.HasPrefix(entry, "md") && rapid.IntRange(0, 2).Draw(t, "withPreOps") == 0 {
 			c.PreOps = rapid.SliceOfN(rapid.SampledFrom(preOpPool), 1, 3).Draw(t, "preOps")
+		}
+		c.Twice = strings.HasPrefix(entry, "iter") && rapid.IntRange(0, 2).Draw(t, "twice") == 0
+		if !strings.HasPrefix(entry, "iter") && c.StopAt >= 0 {
+			c.CbErr = rapid.IntRange(0, 7).Draw(t, "cbErr")
 		}
 		if strings.HasPrefix(entry, "iter") && rapid.IntRange(0, 2).Draw(t, "late") == 0 {
 			c.Late = rapid.IntRange(1, 5).Draw(t, "nlate")
